@@ -33,7 +33,8 @@ RULE = ('random model specs (DAGs and partially cyclic graphs, nested groups, co
         'violates a data dependency (so OpenMDAO really had to reorder)')
 MIN_JUDGED = {'quick': 300, 'thorough': 6000}
 REQUIRED_COUNTERS = ['obs:trace-edge-checks', 'obs:residual-checks', 'obs:value-checks', 'obs:reordered-groups',
-                     'obs:scc-order-checks', 'obs:acyclic-models', 'obs:cyclic-models', 'obs:nested-groups']
+                     'obs:scc-order-checks', 'obs:acyclic-models', 'obs:cyclic-models', 'obs:nested-groups',
+                     'obs:judged-after-second-setup']
 ASSUMPTIONS = ['the predecessor relation is the spec connection graph; R (omv/ref/flatmodel.py) gives the exact values',
                'cyclic specs: only ordering is judged (values are C01/C04 territory), and only when setup succeeds',
                'Problem option allow_post_setup_reorder is left at its default (True)']
@@ -106,6 +107,15 @@ def run_case(case, acc):
             prob = G.build(spec, hook=hook)
             prob.setup()
             prob.final_setup()
+            resetup = case['seed'] % 3 == 0
+            if resetup:
+                # history: the judged run is the one after a SECOND setup of the same problem object (the
+                # groups persist across setups; positions recorded by the first reordering must not be taken
+                # for the declared ones)
+                prob.run_model()
+                prob.setup()
+                prob.final_setup()
+                acc.count('obs:judged-after-second-setup')
             del trace[:]
             prob.run_model()
         except Exception as e:
@@ -234,6 +244,8 @@ def run_case(case, acc):
         # ordering was judged; a non-converged loop does not matter for ordering
         pass
     tag = 'cyclic' if really_cyclic else ('acyclic' if runonce else 'acyclic-iterative')
+    if resetup:
+        tag += ':after-second-setup'
     if bad:
         firstv = True
         seen = set()
